@@ -65,7 +65,7 @@ var pktDecoderNames = []string{"ethernet", "ethernet:new", "vlan", "arp", "ipv4"
 // the structurally rich decoders get more of the case list
 var c08Schedule = []string{"ethernet", "ipv6", "ipv4", "packet_in", "hbh", "dhcp", "igmp3_report", "ethernet", "ipv6", "packet_in", "routing", "dhcp_options", "igmp3_query", "igmp3_record", "lldp", "ip6opt"}
 
-var c08Calls int // calls made by this worker process
+var c08Calls int    // calls made by this worker process
 var c08Recorded int // inputs whose hash this worker process has recorded
 
 func init() {
